@@ -3916,7 +3916,11 @@ class NetCDFRead(IORead):
                 )
 
                 if ncvar in g["auxiliary_coordinate"]:
-                    coord = g["auxiliary_coordinate"][ncvar].copy()
+                    # Copy the construct, and also any report on its
+                    # components (e.g. bounds that could not be found)
+                    coord = self._copy_construct(
+                        "auxiliary_coordinate", field_ncvar, ncvar
+                    )
                 else:
                     coord = self._create_auxiliary_coordinate(
                         field_ncvar, ncvar, f
